@@ -347,8 +347,12 @@ func genCases(c *hx.Ctx, b baseImage) []string {
 	var traced []string
 	for _, p := range pos {
 		old := b.img[p]
-		for _, v := range []byte{0x00, 0xFF, 0x80, 0x7F, old + 1, old - 1, old ^ 0x01, old ^ 0x10} {
-			if v != old {
+		seenV := map[byte]bool{old: true}
+		for _, v := range []byte{0x00, 0xFF, 0x80, 0x7F, old + 1, old - 1, old ^ 0x01, old ^ 0x10,
+			// off-by-a-few bounds on small count / length fields: old+2..old+5 and the small integers
+			old + 2, old + 3, old + 4, old + 5, 2, 3, 4, 5, 8} {
+			if !seenV[v] {
+				seenV[v] = true
 				traced = append(traced, fmt.Sprintf("%d:%02x\t%s byte@%d=%02x(was %02x)", p, v, b.name, p, v, old))
 			}
 		}
